@@ -76,6 +76,8 @@ def check_outputs(b, sol, hist, times, eps, viol, stats, *, label, compare_first
     tol_c = max(tol_c, 100 * compare.cond_tol(compare.TOL_LOCAL_COV, kP, 1e4))
     tol_x = max(tol_x, 100 * compare.cond_tol(compare.TOL_LOCAL_COV, kP, 1e4))
     N = len(times)
+    # Nordsieck yardstick per output: the size of the enclosing / just finished step
+    hloc = [float(hist[max(1, min(nodes[j].get("step", 1) or 1, len(hist) - 1))]["h"]) for j in idx]
     worst_m = worst_c = worst_x = 0.0
     real = [embed.normal_np_at(sol.u, i) for i in range(N)]
     refs = []
@@ -90,12 +92,12 @@ def check_outputs(b, sol, hist, times, eps, viol, stats, *, label, compare_first
         mr, Pr, Psc = refs[i]
         if i == 0 and not compare_first:
             continue
-        em = compare.mean_err(m, mr, q, d, hmean)
+        em = compare.mean_err(m, mr, q, d, hloc[i])
         worst_m = max(worst_m, em)
         if em > tol_m:
             viol.append({"inv": "RTS-mean", "msg": f"[{label}] smoothed mean at output {i} (t={times[i]:.6g}, {cls[i][0]}) differs from the reference RTS posterior: {em:.2e}"})
         if check_cov and onp.max(onp.abs(onp.diag(Psc))) > 0:
-            ec = compare.cov_err(P, Pr, Psc, nk)
+            ec = compare.cov_err(P, Pr, Psc, (q, d, hloc[i]))
             worst_c = max(worst_c, ec)
             if ec > tol_c:
                 viol.append({"inv": "RTS-cov", "msg": f"[{label}] smoothed covariance at output {i} (t={times[i]:.6g}) differs from the reference RTS posterior: {ec:.2e} (tol {tol_c:.1e})"})
@@ -125,11 +127,11 @@ def check_outputs(b, sol, hist, times, eps, viol, stats, *, label, compare_first
         m_rec = A @ m_next + bb
         P_rec = A @ P_next @ A.T + Q
         Psc = refs[i][2] if onp.max(onp.abs(onp.diag(refs[i][2]))) > 0 else refs[i + 1][2]
-        em = compare.mean_err(m_rec, m_i, q, d, hmean)
+        em = compare.mean_err(m_rec, m_i, q, d, hloc[i])
         if em > tol_m:
             viol.append({"inv": "RTS-factorisation", "msg": f"[{label}] backward conditional {i} does not reproduce the marginal mean at output {i}: {em:.2e}"})
         if check_cov and onp.max(onp.abs(onp.diag(Psc))) > 0:
-            ec = compare.cov_err(P_rec, P_i, Psc, nk)
+            ec = compare.cov_err(P_rec, P_i, Psc, (q, d, hloc[i]))
             if ec > tol_c:
                 viol.append({"inv": "RTS-factorisation", "msg": f"[{label}] backward conditional {i} does not reproduce the marginal covariance at output {i}: {ec:.2e}"})
         # (2) neighbouring cross-covariance Cov(x_i, x_{i+1}) = G P^s_{i+1}
